@@ -23,7 +23,7 @@ MCInit ==
           InitWith([L |-> L, N |-> N, startup |-> o.startup, daily |-> o.daily, gz |-> o.gz],
                    [n \in {FOREIGN1} |-> File("foreign", <<>>, <<0, 0>>, 7)],
                    <<>>, <<>>, <<>>, <<0, 0>>)
-    /\ mc = [sends |-> 0, faults |-> 0, crashes |-> 0, gzw |-> 0, stage |-> 0]
+    /\ mc = [sends |-> 0, faults |-> 0, crashes |-> 0, gzw |-> 0, stage |-> 0, zones |-> 0]
 
 MCCanStop == ((cfg.daily /\ cfg.N # 1) \/ g.zoned) => CanStop
 
@@ -75,12 +75,15 @@ MCNextDay == /\ Quiet /\ now[1] < MaxDay /\ ~g.zoned
 \* records of the old day in its buffer or its file would be stopped over (the stop rule of the environment)
 \* (a sink constructed - or initialised by its first record - in the new zone over a non-empty file of the old one attributes the file to the wrong day -
 \* it has nothing but the modification time to go by; like stopping over a stale file this is outside C09)
-MCZone == /\ ZoneBack /\ Quiet /\ g.tz = 0 /\ now[1] >= 1
+MCZone == /\ ZoneBack /\ Quiet /\ mc.zones < 2 /\ now[1] >= 1
           /\ (IF sk.alive /\ sk.inited THEN TRUE ELSE IF ACTIVE \in DOMAIN dir THEN dir[ACTIVE].recs = <<>> ELSE TRUE)
-          \* the day the calendar goes back to has left no rotated names behind (an index freed by retention would be
-          \* handed out again: the naming scheme relies on a date that does not return)
-          /\ \A u \in g.used : u[2] # now[1] - 1
-          /\ ShiftZone(0 - 1, <<now[1], now[2] + 1>>) /\ UNCHANGED mc
+          /\ LET z == IF g.tz = 0 THEN 0 - 1 ELSE 0 IN
+                \* with a retention limit, the day the calendar goes (back) to has left no rotated names behind (an index
+                \* freed by retention would be handed out again: the naming scheme relies on a date that does not return);
+                \* without one, returning to a day that has rotated files is fine - the next index is one more than theirs
+                /\ (cfg.N <= 0 \/ \A u \in g.used : u[2] # now[1] + z)
+                /\ ShiftZone(z, <<now[1], now[2] + 1>>)
+          /\ mc' = [mc EXCEPT !.zones = @ + 1]
 
 MCNext == MCZone \/ MCFatal \/ MCConstruct \/ MCSend \/ MCFlush \/ MCDestroy \/ MCInt \/ MCSys \/ MCCrash \/ MCTick \/ MCNextDay
 MCSpec == MCInit /\ [][MCNext]_mcvars
